@@ -189,11 +189,14 @@ func HarnessC08Diagnosed() {
 			s("use"), yMap(s("needs"), ySeq(s("call")), s("runs-on"), s("ubuntu-latest"), s("steps"), ySeq(
 				yMap(s("run"), s("echo ${{ needs.call.outputs."+nm("k4", "result")+" }} ${{ needs.call.outputs.nope }}")),
 				yMap(s("uses"), s("actions/checkout@v4"), s("with"), yMap(s(nm("k5", "ref")), s("x"), s("nope"), s("y"))),
+				yMap(s("run"), s("echo ${{ "+nm("k7", "startswith")+"(github.event.pull_request.title, 'x') }} ${{ "+nm("k8", "contains")+"(github.event.issue.body, 'y') }} ${{ github.event.issue.title }}")),
 			)),
+			s("lab"), yMap(s("runs-on"), s("${{ matrix.os }}"), s("strategy"), yMap(s("matrix"), yMap(s("include"), ySeq(yMap(s(nm("k9", "os")), s("ubuntu-oldest"))))),
+				s("steps"), ySeq(yMap(s("run"), s("echo")))),
 		)))
 		verifPlace(doc, 1, 0)
 		la := NewLocalActionsCache(nil, nil)
-		return verifLintNode(doc, []Rule{NewRuleWorkflowCall("/r/.github/workflows/w.yml", cache), NewRuleExpression(la, cache), NewRuleAction(la), NewRuleJobNeeds()})
+		return verifLintNode(doc, []Rule{NewRuleWorkflowCall("/r/.github/workflows/w.yml", cache), NewRuleExpression(la, cache), NewRuleAction(la), NewRuleJobNeeds(), NewRuleRunnerLabel()})
 	}
 	e0 := mk(false)
 	errs := mk(true)
